@@ -32,7 +32,7 @@ def job(d):
     wt,vd=wq.get()
     try:
         sh(f'git -C {wt} checkout -q -- .; git -C {wt} clean -fdq')
-        r=sh(f'git -C {wt} apply --whitespace=nowarn {d}patch.diff')
+        r=sh(f"git -C {wt} apply {'-R ' if meta.get('reverse') else ''}--whitespace=nowarn {d}patch.diff")
         if r.returncode: return f'{id_} PATCH-DOES-NOT-APPLY'
         if kind=='benign':
             prop='all'
